@@ -27,6 +27,10 @@ func runC08(c *mon.Ctx) {
 		}
 		c08SparseShutdown(c, r.Fork(9))
 		c08DeriveAcrossClose(c, r.Fork(10))
+		if i%200 == 0 {
+			c08BlockedPass(c, r.Fork(11))
+		}
+		c08MultiCloser(c, r.Fork(12))
 	})
 }
 
@@ -790,4 +794,128 @@ func c08DeriveAcrossClose(c *mon.Ctx, r *mon.Rand) {
 		}
 	}
 	c.Event("closes-with-a-derivation-paused-before-its-write-lock", 1)
+}
+
+// c08BlockedPass: a periodic pass is blocked inside a reporter call (a report
+// or the flush) when Close is called, and stays blocked for 3.5-4 seconds
+// (longer than any patience a Close might have). Close must not return while
+// that pass is inside the reporter; once the call is released Close returns.
+// The verdict is on the order of events (Close returned before the reporter
+// call did), the seconds only decide how long the probe looks.
+func c08BlockedPass(c *mon.Ctx, r *mon.Rand) {
+	cached := r.Bool()
+	blockOn := mon.EvCounter
+	if r.Bool() {
+		blockOn = mon.EvFlush
+	}
+	var rec *mon.Recorder
+	opts := tally.ScopeOptions{OmitCardinalityMetrics: true}
+	if cached {
+		cr := mon.NewCachedRec(true)
+		rec, opts.CachedReporter = cr.Recorder, cr
+	} else {
+		pr := mon.NewPlainRec(true)
+		rec, opts.Reporter = pr.Recorder, pr
+	}
+	var armed, inside int32
+	entered, release := make(chan struct{}), make(chan struct{})
+	rec.Delay = func(k mon.EvKind) {
+		if k == blockOn && atomic.LoadInt32(&armed) == 1 && atomic.CompareAndSwapInt32(&inside, 0, 1) {
+			close(entered)
+			<-release
+			atomic.StoreInt32(&inside, 2)
+		}
+	}
+	hold := time.Duration(r.Range(3500, 4000)) * time.Millisecond
+	desc := map[string]interface{}{"cached": cached, "pass_blocked_in": blockOn.String(), "held_ms": hold.Milliseconds()}
+	root, closer := vNewRoot(opts, time.Millisecond, uint(r.Range(0, 2)))
+	ctr := root.Counter("c")
+	atomic.StoreInt32(&armed, 1)
+	ctr.Inc(1)
+	stop := c.Watchdog(120*time.Second, "close-or-pass-does-not-finish", desc)
+	defer stop()
+	<-entered // the ticker's pass is inside the reporter now
+	var returned int32
+	done := make(chan struct{})
+	go func() {
+		defer close(done)
+		closer.Close()
+		atomic.StoreInt32(&returned, 1)
+	}()
+	time.Sleep(hold)
+	early := atomic.LoadInt32(&returned) == 1 && atomic.LoadInt32(&inside) == 1
+	close(release)
+	<-done
+	if early {
+		c.Violation("close-returned-while-a-pass-was-inside-the-reporter", map[string]interface{}{"why": fmt.Sprintf("a periodic pass was blocked inside the reporter's %s call when Close was called; Close returned while it was still there (within %v)", blockOn, hold), "case": desc})
+	}
+	c.Event("closes-with-a-pass-blocked-in-the-reporter-for-seconds", 1)
+	c.Eval(1)
+}
+
+// c08MultiCloser: the root's reporter is a multi reporter over 2-4 closable
+// children of which one, not the last, fails to close. A reporter that can be
+// closed is closed exactly once by the root's Close: if the multi reporter is
+// closable, that holds for every one of its children and the failure is
+// returned; if it is not (the pinned tree), no child is closed at all. Never
+// is a child closed twice, and none is closed before the final flush.
+func c08MultiCloser(c *mon.Ctx, r *mon.Rand) {
+	n := r.Range(2, 4)
+	cached := r.Bool()
+	failing := r.Intn(n - 1)
+	recs := make([]*mon.Recorder, n)
+	var plain []tally.StatsReporter
+	var cach []tally.CachedStatsReporter
+	for i := range recs {
+		if cached {
+			cr := mon.NewCachedRec(true)
+			recs[i], cach = cr.Recorder, append(cach, mon.CachedRecCloser{CachedRec: cr})
+		} else {
+			pr := mon.NewPlainRec(true)
+			recs[i], plain = pr.Recorder, append(plain, mon.PlainRecCloser{PlainRec: pr})
+		}
+	}
+	recs[failing].CloseErr = mon.ErrRecClose
+	opts := tally.ScopeOptions{OmitCardinalityMetrics: true}
+	var closable bool
+	if cached {
+		m := multi.NewMultiCachedReporter(cach...)
+		_, closable = m.(io.Closer)
+		opts.CachedReporter = m
+	} else {
+		m := multi.NewMultiReporter(plain...)
+		_, closable = m.(io.Closer)
+		opts.Reporter = m
+	}
+	desc := map[string]interface{}{"children": n, "cached": cached, "child_failing_to_close": failing, "multi_reporter_is_closable": closable}
+	root, closer := vNewRoot(opts, 0, 1)
+	root.Counter("c").Inc(1)
+	err := closer.Close()
+	for i, rec := range recs {
+		log, _, _ := rec.Snapshot()
+		closes, lastFlush, closeAt := 0, int64(-1), int64(-1)
+		for _, ev := range log {
+			switch ev.Kind {
+			case mon.EvClose:
+				closes++
+				closeAt = ev.Seq
+			case mon.EvFlush:
+				lastFlush = ev.Seq
+			}
+		}
+		if closes > 1 || closable && closes != 1 {
+			c.Violation("reporter-close-count", map[string]interface{}{"why": fmt.Sprintf("child %d of the multi reporter was closed %d times by the root's Close (the multi reporter is closable: %v; child %d returns an error from Close)", i, closes, closable, failing), "case": desc})
+		}
+		if closes == 1 && closeAt < lastFlush {
+			c.Violation("reporter-closed-before-final-flush", map[string]interface{}{"why": fmt.Sprintf("child %d was closed before its last flush", i), "case": desc})
+		}
+	}
+	if closable && err == nil {
+		c.Violation("close-error-not-returned", map[string]interface{}{"why": "a child of the closable multi reporter failed to close and the root's Close returned nil", "case": desc})
+	}
+	if closable {
+		c.Class("shutdowns-over-a-closable-multi-reporter", 1)
+	} else {
+		c.Class("shutdowns-over-a-multi-reporter-that-is-not-closable(children stay open)", 1)
+	}
 }
